@@ -147,8 +147,13 @@ class SharedMemoryFileBufferedCollection(FileBufferedCollection):
                         # we could modify this item again later, leading to
                         # another (possibly forced) flush afterwards that will
                         # appear invalid if the metadata isn't updated to the
-                        # metadata after the current flush.
-                        cached_data["metadata"] = self._get_file_metadata()
+                        # metadata after the current flush. Data that was only
+                        # read was not written, so its metadata must keep
+                        # describing the file as it was when it was read:
+                        # otherwise a change made to the file in the meantime
+                        # would go unnoticed and be overwritten later.
+                        if cached_data["modified"]:
+                            cached_data["metadata"] = self._get_file_metadata()
                         cached_data["modified"] = False
         else:
             # If this object is still buffered _and_ this wasn't a force flush,
